@@ -181,6 +181,32 @@ def campaign(c):
         else:
             c.violation('time:jump-shift', 'jump sweep in %s failed: %s' % (unit, impl['outcome'][:3]), dict(src=src.decode()[:2000]))
         c.case(('jump-sweep', unit), dict(kind='jump-sweep', unit=unit, values=len(ds)))
+    # statements that emit no packet (and are not time jumps) add nothing: every library function and method whose result is not a
+    # packet, a packet sequence or a time jump, called between two frames as a statement and as a let - the second frame comes
+    # exactly one frame time after the first
+    from .C11 import SRC_OF, CTOR_SRC, E2E_HEAD, REPS, decl_type
+    B = (14 + 24) * 8
+    for f in lib.funcs:
+        if f['return_type'] in ('Pkt', 'PktGen', 'TimeJump'): continue
+        args = []
+        for a in f['args']:
+            if a['kind'] != 'pos': continue
+            t = decl_type(a)[0]
+            args.append('"|020000000001|"' if (f['path'] == 'eth::frame' and a['name'] in ('src', 'dst')) else '"a.example"' if t == 'Str' else '100' if t in ('U8', 'U16', 'U32', 'U64') else SRC_OF[REPS[t]])
+        call = ('o2.%s(%s)' % (f['path'].split('.')[1], ', '.join(args))) if '.' in f['path'] else '%s(%s)' % (f['path'], ', '.join(args))
+        pre = E2E_HEAD + ('let o2 = %s;\n' % CTOR_SRC[f['path'].split('.')[0]] if '.' in f['path'] else '')
+        fr = 'eth::frame("|000000000001|", "|000000000002|");\n'
+        for form in ('%s;\n', 'let r = %s;\n', 'let r = %s;\nlet r2 = r;\n'):
+            src = (pre + fr + form % call + fr).encode()
+            impl, model = progdiff.run_both(c, src)
+            progdiff.compare(c, src, impl, model, 'non-emitting', project=lambda fb: len(fb).to_bytes(4, 'big'))
+            if impl['outcome'][0] == 'success':
+                T = times_of(c, impl['file'], dict(src=src.decode()))
+                if T is not None and (len(T) != 2 or T[1] - T[0] != B):
+                    c.violation('time:non-emitting-advances', '%s emits nothing but the clock moved by %s ns between the frames around it (one frame time is %d)' % (call, (T[1] - T[0]) if len(T) == 2 else T, B), dict(src=src.decode()))
+                c.traces_validated += 1
+            c.count('non-emitting:' + impl['outcome'][0])
+        c.case(('non-emitting', f['path']), dict(kind='non-emitting', call=call) if hash(f['path']) % 8 == 0 else None)
     # boundary: seconds field near the pcap limit, nsec crossing
     for v, unit in [(4294967295, 'seconds'), (999999999, 'nanos'), (1000000000, 'nanos'), (4294967295999, 'millis'), (1, 'nanos')]:
         src = ('import time;\nimport eth;\ntime::jump_%s(%d);\neth::frame("|000000000001|", "|000000000002|");\ntime::jump_nanos(999999999);\neth::frame("|000000000001|", "|000000000002|");\n' % (unit, v)).encode()
